@@ -230,6 +230,7 @@ class Stmt:
         self.limit = None
         self.offset = None
         self.select = []
+        self.or_clause = None
 
     def __repr__(self):
         return f'<{self.kind} {self.table or ""} {self.text[:50]}>'
@@ -277,6 +278,7 @@ def parse_stmt(sql):
         st.values = [v.strip() for v in split_top(m.group(4))]
         if len(st.cols) != len(st.values):
             raise SqlError(f'INSERT column/value count mismatch: {s[:100]}')
+        st.or_clause = m.group(1).strip().upper().replace('OR ', '') if m.group(1) else None
         if m.group(1):
             st.conflict = m.group(1).strip().upper().replace('OR ', '')
         if m.group(5):
@@ -296,7 +298,7 @@ def parse_stmt(sql):
             st.sets[k.strip()] = v.strip()
         st.where = parse_where(m.group(3)) if m.group(3) else []
         return st
-    m = re.match(r'^SELECT (.*?) FROM (\w+)(?: WHERE (.*?))?(?: ORDER BY (.*?))?(?: LIMIT (\S+))?(?: OFFSET (\S+))?$', s, re.I)
+    m = re.match(r'^SELECT (?:DISTINCT )?(.*?) FROM (\w+)(?: WHERE (.*?))?(?: ORDER BY (.*?))?(?: LIMIT (\S+))?(?: OFFSET (\S+))?$', s, re.I)
     if m and not u.startswith('SELECT EXISTS'):
         st = Stmt('SELECT', s); st.table = m.group(2)
         st.select = [c.strip() for c in split_top(m.group(1))]
@@ -409,4 +411,15 @@ def let_bindings(rel, name):
     out = {}
     for m in re.finditer(r'\blet\s+(?:mut\s+)?(\w+)(?:\s*:\s*[^=;]+)?\s*=\s*([^;]+);', body):
         out[m.group(1)] = re.sub(r'\s+', ' ', m.group(2)).strip()
+    return out
+
+
+def all_sql_literals(rel):
+    """every SQL string literal of a source file outside its test module (for configuration-level checks such as PRAGMAs)"""
+    src = source(rel)
+    out = []
+    for m in re.finditer(r'"((?:[^"\\]|\\.)*)"', src, re.S):
+        lit = re.sub(r'\s+', ' ', m.group(1)).strip()
+        if lit.upper().startswith(SQL_KW):
+            out.append(lit)
     return out
